@@ -57,6 +57,11 @@ def vp_int(lo, hi):
     return {"k": "int", "lo": lo, "hi": hi, "pvs": [], "pv_hide": [], "pv_help": []}
 
 
+def vp_kind(k):
+    """a built-in value parser without parameters: os, path, boolish, falsey, nonempty"""
+    return {"k": k, "lo": 0, "hi": 0, "pvs": [], "pv_hide": [], "pv_help": []}
+
+
 def vp_possible(*names, hide=(), helps=None):
     return {"k": "possible", "lo": 0, "hi": 0, "pvs": [b(n) for n in names], "pv_hide": [n in hide for n in names],
             "pv_help": [b((helps or {}).get(n, "")) for n in names]}
@@ -495,6 +500,16 @@ def f_tree():
         extra=["--update", "--upd", "--up", "--u", "--as", "--sy", "-U", "--q"])
     add("propagate-version", cmd("p", [], subs=[mid], version=True, propagate_version=True), extra=["--version", "-V"])
     add("ignore-errors-tree", cmd("p", [arg("f", "f", action="SetTrue"), arg("o", "o", defaults=["d"])], subs=[mid], ignore_errors=True))
+    # what error messages suggest: the footer target under every help configuration, did-you-mean for near misses
+    add("no-help-anywhere", cmd("p", [arg("f", "f", "flag", action="SetTrue")], subs=[leaf], disable_help_flag=True, disable_help_subcommand=True),
+        extra=["help", "--help", "--flg", "laef"])
+    add("help-subcommand-only", cmd("p", [arg("f", "f", "flag", action="SetTrue")], subs=[mid], disable_help_flag=True),
+        extra=["help", "--help", "--flg", "mdi", "--mn"])
+    add("user-help-flag", cmd("p", [arg("assist", "a", "assist", action="Help"), arg("f", "f", "flag", action="SetTrue")], subs=[leaf],
+                              disable_help_flag=True, disable_help_subcommand=True), extra=["--assist", "--asist", "--help", "leav"])
+    add("near-misses", cmd("p", [arg("color", None, "color", vp=vp_possible("always", "never")), arg("verbose", None, "verbose", action="SetTrue")],
+                           subs=[cmd("build", [arg("release", None, "release", action="SetTrue")]), cmd("check", aliases=["chk"])]),
+        extra=["--colour", "--color=alwys", "--verbos", "--releas", "biuld", "chek", "--", "build", "--color=never"])
     add("sub-with-positional-parent", cmd("p", [arg("p1"), arg("f", "f", action="SetTrue")], subs=[leaf]))
     return D
 
@@ -693,6 +708,13 @@ def f_hist():
         [["--bad"], ["-f", "leaf", "--bad"], ["--help"], ["-o"], ["leaf", "x", "y"]])
     add("external", cmd("prog", [arg("f", "f", action="SetTrue")], subs=[cmd("known")], allow_external_subcommands=True),
         [["ext", "a", "b"], ["known"], ["-f", "ext"], ["--nope"]])
+    # every built-in value parser, also on a global argument (globals are cloned into each subcommand at build time)
+    add("typed", cmd("prog", [arg("cfg", "c", "cfg", glob=True, vp=vp_kind("path")), arg("os", "o", "os", vp=vp_kind("os")),
+                              arg("n", "n", "num", vp=vp_int(0, 9)), arg("color", long="color", vp=vp_possible("always", "never")),
+                              arg("yes", "y", "yes", vp=vp_kind("boolish")), arg("ne", long="ne", vp=vp_kind("nonempty"))],
+                     subs=[cmd("sub", [arg("p", "p", "path", vp=vp_kind("path")), arg("s", "s", action="SetTrue")])]),
+        [["--cfg", "x"], ["sub", "--cfg", "x"], ["--cfg", "x", "sub", "-p", "y"], ["-n", "3"], ["-n", "x"], ["--color", "never"], ["--color", "nevr"],
+         ["-y", "on"], ["--ne", ""], ["-o", "v", "sub", "-s"], ["sub", "-p"]])
     return D
 
 
